@@ -175,6 +175,34 @@ pub fn cases(quick: bool) -> Vec<RosCase> {
                 }
             }
         }
+        // chains whose callbacks have their own arrival curves: jitter growing along the chain
+        for (t, j0) in [(6u64, 0u64), (9, 2), (12, 5)] {
+            for (c1, c2, c3) in [(1u64, 1u64, 1u64), (2, 1, 2), (1, 3, 1)] {
+                for o in &thin {
+                    for grow in [1u64, 3] {
+                        v.push(RosCase::ChainGeneral {
+                            supply: sup.clone(),
+                            chain: vec![
+                                (ArrSpec::Sporadic { t, j: j0 }, CostSpec::Scalar(c1)),
+                                (ArrSpec::Sporadic { t, j: j0 + grow }, CostSpec::Scalar(c2)),
+                                (ArrSpec::Sporadic { t, j: j0 + 2 * grow + 1 }, CostSpec::Scalar(c3)),
+                            ],
+                            others: vec![o.clone()],
+                            limit: LIMIT,
+                        });
+                    }
+                }
+                v.push(RosCase::ChainGeneral {
+                    supply: sup.clone(),
+                    chain: vec![
+                        (ArrSpec::ExtCurve { dmin: vec![t, 2 * t] }, CostSpec::Scalar(c1)),
+                        (ArrSpec::Propagated { inner: Box::new(ArrSpec::ExtCurve { dmin: vec![t, 2 * t] }), j: 4 }, CostSpec::Scalar(c3)),
+                    ],
+                    others: vec![thin[0].clone()],
+                    limit: LIMIT,
+                });
+            }
+        }
         // chains of two and three callbacks
         for (src, _) in m.iter().step_by(2) {
             for c1 in 1..=2u64 {
@@ -301,6 +329,7 @@ pub fn set_limit(c: &RosCase, l: u64) -> RosCase {
         | RosCase::Pp { limit, .. }
         | RosCase::Chain { limit, .. }
         | RosCase::ChainSummed { limit, .. }
+        | RosCase::ChainGeneral { limit, .. }
         | RosCase::Sub { limit, .. } => *limit = l,
     }
     c
@@ -311,7 +340,7 @@ pub fn name(c: &RosCase) -> &'static str {
         RosCase::EventSource { .. } => "ros2::rta_event_source",
         RosCase::Timer { .. } => "ros2::rta_timer",
         RosCase::Pp { .. } => "ros2::rta_polling_point_callback",
-        RosCase::Chain { .. } | RosCase::ChainSummed { .. } => "ros2::rta_processing_chain",
+        RosCase::Chain { .. } | RosCase::ChainSummed { .. } | RosCase::ChainGeneral { .. } => "ros2::rta_processing_chain",
         RosCase::Sub { bw: false, .. } => "ros2::rr::rta_subchain",
         RosCase::Sub { bw: true, .. } => "ros2::bw::rta_subchain",
     }
@@ -327,6 +356,7 @@ pub fn analysed(c: &RosCase) -> (ArrSpec, u64) {
         RosCase::Timer { own, .. } | RosCase::Pp { own, .. } => (own.0.clone(), own.1.wcet()),
         RosCase::Chain { src, costs, .. } => (src.clone(), costs.last().unwrap().wcet()),
         RosCase::ChainSummed { src, costs, .. } => (src.clone(), *costs.last().unwrap()),
+        RosCase::ChainGeneral { chain, .. } => (ArrSpec::Sum(chain.iter().map(|x| x.0.clone()).collect()), chain.last().unwrap().1.wcet()),
         RosCase::Sub {
             workload, subchain, ..
         } => {
